@@ -139,19 +139,11 @@ Fixpoint compile (its : items) : list cev :=
   | IPoint p r => CInstr None :: CInstr (Some p) :: compile r
   | IPad r => CInstr None :: compile r
   | IBlock b r => CEnter :: compile b ++ CLeave :: compile r          (* compileBlock *)
-  | INumFor h1 h2 h3 vi vl vs v b r =>                               (* compileNumberForStmt *)
+  | IFor parts late b r =>             (* compileNumberForStmt / compileGenericForStmt *)
       CEnter ::
-      CReg (for_index, vi) :: CInstr None :: cpts h1 ++
-      CReg (for_limit, vl) :: CInstr None :: cpts h2 ++
-      CReg (for_step, vs) :: CInstr None :: cpts h3 ++
-      CStartHere 3 :: CInstr None (* FORPREP *) :: CReg v ::
-      compile b ++ CLeave :: CInstr None (* FORLOOP *) :: compile r
-  | IGenFor h vs b r =>                                              (* compileGenericForStmt *)
-      CEnter ::
-      CReg (for_generator, None) :: CReg (for_state, None) :: CReg (for_control, None) ::
-      CInstr None :: cpts h ++
-      CStartHere 3 :: CInstr None (* JMP *) :: map CReg vs ++
-      compile b ++ CLeave :: CInstr None :: CInstr None (* TFORLOOP, JMP *) :: compile r
+      flat_map (fun x => CReg (fst x) :: CInstr None :: cpts (snd x)) parts ++
+      CStartHere (List.length parts) :: CInstr None (* FORPREP / JMP *) :: map CReg late ++
+      compile b ++ CLeave :: CInstr None (* FORLOOP / TFORLOOP *) :: compile r
   | IRepeat b c r =>                                                 (* compileRepeatStmt *)
       CEnter :: compile b ++ cpts c ++ CInstr None :: CLeave :: compile r
   end.
